@@ -7,7 +7,7 @@ def check(name, small_window=True):
     d = check_at(name, 240, (100, 239, 240, 241, 300, 500))
     if d:
         return d
-    d = check_period_boundary(name)
+    d = indic.in_child(check_period_boundary, name)
     if d or not small_window:
         return d
     # the bound the symbolic check used: warm-up window configured to 32 candles, 44 candles of input
@@ -60,11 +60,35 @@ def check_period_boundary(name):
     return None
 
 
+def _variants(f):
+    """default parameters, and every moving-average selector switched from the simple to a recursive average (a trailing window
+    decides a simple average, not a recursive one)"""
+    import inspect
+    out = [{}]
+    try:
+        params = inspect.signature(f).parameters
+    except (TypeError, ValueError):
+        return out
+    ma = {k: 1 for k, v in params.items() if 'matype' in k and isinstance(v.default, int) and v.default == 0}
+    if ma:
+        out.append(ma)
+    return out
+
+
 def check_at(name, W, ns):
     import os
     os.environ.setdefault('PYTEST_CURRENT_TEST', 'verif-replay')      # configuration look-ups are not memoized
-    f = indic.get(name)
-    for kind in ('random', 'trend'):
+    f0 = indic.get(name)
+    for kw in _variants(f0):
+        d = _check_at(name, (lambda *a, **k: f0(*a, **dict(kw, **k))), W, ns, kw)
+        if d:
+            return d
+    return None
+
+
+def _check_at(name, f, W, ns, kw):
+    note = f' with {kw}' if kw else ''
+    for kind in ('random', 'trend', 'ties', 'zerovol'):
         for n in ns:
             c = indic.candles(n, 3, kind)
             try:
@@ -77,10 +101,10 @@ def check_at(name, W, ns):
                     continue
                 sv = np.asarray(sv, dtype=float)
                 if len(sv) != n:
-                    return f'{name}(field {fn}): sequential result has {len(sv)} entries for {n} candles'
+                    return f'{name}(field {fn}){note}: sequential result has {len(sv)} entries for {n} candles ({kind} series)'
                 li = _last_index(name, fn, {})
                 if n <= W and nv is not None and not indic.close_enough(sv[li:][:1], np.asarray([nv], dtype=float)):
-                    return f'{name}(field {fn}): sequential entry [{li}] = {sv[li]} != non-sequential result {nv} ({n} candles)'
+                    return f'{name}(field {fn}){note}: sequential entry [{li}] = {sv[li]} != non-sequential result {nv} ({n} candles, {kind} series)'
             if n > W:
                 try:
                     tail = indic.fields(f(c[-W:], sequential=True))
@@ -91,7 +115,7 @@ def check_at(name, W, ns):
                         continue
                     li = _last_index(name, fn, {})
                     if not indic.close_enough(np.asarray(tv, dtype=float)[li:][:1], np.asarray([nv], dtype=float)):
-                        return (f'{name}(field {fn}): non-sequential result on {n} candles is {nv} but the sequential result on the '
+                        return (f'{name}(field {fn}){note}: non-sequential result on {n} candles ({kind} series) is {nv} but the sequential result on the '
                                 f'trailing {W} candles (the configured warm-up window) ends with {np.asarray(tv)[-1]}')
     return None
 
